@@ -283,7 +283,13 @@ def check_publish_after_drain(ctx, sites):
     direct, spawners = spawner_functions(ctx, sites)
     rule = 'R-MUST/publish-after-drain'
     ctx.floor(rule, 7)
-    for stage, q, out, consumers in STAGES:
+    todo = list(STAGES)
+    judged_frames = set()
+    while todo:
+        stage, q, out, consumers = todo.pop(0)
+        if (q, out) in judged_frames:
+            continue
+        judged_frames.add((q, out))
         fi = db.fn(q)
         ctx.touch(fi)
         cfg = cfg_of(fi)
@@ -348,6 +354,18 @@ def check_publish_after_drain(ctx, sites):
                 reach = cfg.reachable(wn.id)
                 for (sn, c, what) in spawn_nodes:
                     if sn.id == wn.id and c is site:
+                        # one call that both writes the output and starts
+                        # workers: the order of the two is decided inside
+                        # the callee, which is judged as a frame of its own
+                        t_ = resolve_callee(db, fi, c)
+                        if isinstance(t_, FunctionInfo):
+                            m_, _ = bind_args(t_, c)
+                            for pn_, a_ in m_.items():
+                                if isinstance(a_, ast.Name) \
+                                        and a_.id == out:
+                                    todo.append((f'{stage} (in '
+                                                 f'{t_.name})', t_.qual,
+                                                 pn_, consumers))
                         continue
                     if sn.id in reach and sn.id != wn.id:
                         bad = (sn, c, what, cfg.path(wn.id, {sn.id}))
